@@ -9,6 +9,7 @@ LEVEL = "proof"
 def main(run):
     pkg = SS.save_package()
     run.pkg = pkg
+    run.auto_fallback_samples = 3       # a native sample forks one child per crash point
     run.under_contract(pkg, "run.save", ["save_json", "json_serializer", "Output.json"])
     run.stubs_used.update(["SpecFS (pathlib.Path / os / open): open('w') truncates, content is an arbitrary prefix until close, "
                            "replace is atomic", "SpecJSON: loads(dumps(x)) == x", "SymDict: the earlier mapping is arbitrary"])
